@@ -28,7 +28,8 @@ PI = real_val(math.pi)
 
 
 def _tank(cx, name="T", **kw):
-    f = dict(_vol_curve_name=None, _curve_reg=_NoneReg())
+    # a tank as the simulator leaves it after a solved step: its reported demand is already net of the leak; the leak itself is some number
+    f = dict(_vol_curve_name=None, _curve_reg=_NoneReg(), _leak_demand=cx.real("leak_demand_" + name))
     f.update(kw)
     return mk_node(cx, Tank, name, **f)
 
